@@ -15,7 +15,8 @@ Do ==
        [] sel = 5 -> \E pp \in PPs : NetMerge(pp)
        [] sel = 6 -> \E x \in Names, prune \in {0, 1} : ApiForceLeave(x, prune)
        [] sel = 7 -> ApiBroadcastJoin
-       [] sel = 8 -> \E f \in IncSubs(R.failedL), l \in IncSubs(R.leftL) : ApiReap(f, l)
+       [] sel = 8 -> \/ \E f \in IncSubs(R.failedL), l \in IncSubs(R.leftL) : ApiReap(f, l)
+                     \/ \E s \in IncSubs(IntSeq) : TimeExpire(s)
        [] sel = 9 -> IF steps > 12 THEN ApiLeave ELSE \E x \in Foreign : MLJoin(x) \/ MLLeave(x) \/ MLUpdate(x)
 Skip == sel # 0 /\ sel' = 0 /\ UNCHANGED vars
 GenNext == Pick \/ Do \/ Skip
